@@ -18,8 +18,13 @@ import (
 	"fmt"
 	"net/http"
 	"os"
+	"path/filepath"
+	"strconv"
 	"strings"
+	"testing"
 	"unicode/utf8"
+
+	"verifharness/internal/abs"
 
 	"github.com/grafana/dskit/tenant"
 	"github.com/grafana/dskit/user"
@@ -204,9 +209,27 @@ func guard(f func()) (panicked string) {
 	return ""
 }
 
-func envOr(name, def string) string {
-	if v := os.Getenv(name); v != "" {
+// envFor returns $<NAME>_<KIND> if set, else $<NAME>: the three drivers of this package can run in
+// one `go test` invocation (one link step) with their own inputs, or alone with the generic names.
+func envFor(name, kind string) string {
+	if v := os.Getenv(name + "_" + kind); v != "" {
 		return v
 	}
-	return def
+	return os.Getenv(name)
+}
+
+func envIntFor(name, kind string) int {
+	v, err := strconv.Atoi(envFor(name, kind))
+	if err != nil {
+		return 0
+	}
+	return v
+}
+
+// writeResult writes the driver's result to $VERIF_OUT_DIR/<kind>.json if set, else to $VERIF_OUT.
+func writeResult(t *testing.T, res *abs.Result, kind string) {
+	if d := os.Getenv("VERIF_OUT_DIR"); d != "" {
+		t.Setenv("VERIF_OUT", filepath.Join(d, kind+".json"))
+	}
+	res.Write(t)
 }
